@@ -31,6 +31,7 @@ ASSUMPTIONS = [
     "greedy = run while a transition exists, accept only if stopped in an accepting state (the engine's documented behaviour), computed by the reference",
     "automaton construction is memoised per expression inside find_all (matcher.expression_to_nfa / nfa_to_dfa)",
     "a parenthesis is a punctuation token; a string literal whose text is '(' is not",
+    "part A supplies atoms as plain items / fresh equal predicate objects / one object per letter and shares identical sub-patterns as one operator object, as C13 does",
 ]
 EXHAUSTIVE = {
     "quick": "A: trees <= 4 nodes x sequences <= 6; B: shipped header shapes x token sequences <= 6 (arrow 5)",
